@@ -32,8 +32,8 @@ import traceback
 from typing import Any, Callable, Dict, Iterable, List, Optional
 
 VERIF_DIR = os.path.dirname(os.path.dirname(os.path.abspath(__file__)))
-EVIDENCE_DIR = os.path.join(VERIF_DIR, "evidence")
-REPLAY_DIR = os.path.join(VERIF_DIR, "replays")
+EVIDENCE_DIR = os.environ.get("NSSVERIF_EVIDENCE_DIR") or os.path.join(VERIF_DIR, "evidence")
+REPLAY_DIR = os.environ.get("NSSVERIF_REPLAY_DIR") or os.path.join(VERIF_DIR, "replays")
 REGRESSION_DIR = os.path.join(VERIF_DIR, "regression")
 KNOWN_FILE = os.path.join(VERIF_DIR, "known_findings.json")
 
